@@ -189,8 +189,20 @@ def check(prog, rep, tier):
                 rep.bad("C06.mean-queries", f"{ctx}.__mean_min_query", "zero shortcut", "0 is returned without both the smallest and the largest row value being 0", f.where(p.exit[2]))
             continue
         apps = [e for e in p.events if e.kind == "call" and e.name == "append" and e.loops]
+        comps = [e for e in p.events if e.kind == "bind" and e.value[0] == "comp" and e.value[1] == "list" and len(e.value[3]) == 1
+                 and strip_epochs(e.value[3][0][2]) == res]
+        if not apps and not comps:
+            if any(c.atom[0] == "loop0" for c in p.conds):
+                continue
+            okm = False
+            rep.bad("C06.mean-queries", f"{ctx}.__mean_min_query", "no per-row estimates", "no per-row estimate list is built from the row values", f.where())
+            break
         if not apps:
-            continue
+            class _A:  # comprehension form: [estimate for bin in results]
+                args = [comps[0].value[2]]
+                recv = comps[0].value
+                where = comps[0].where
+            apps = [_A]
         a = strip_epochs(apps[0].args[0])
         tb = [n for n in walk(a) if n[0] == "it"]
         want = norm(("bin", "-", tb[0], ("bin", "//", ("bin", "-", N, tb[0]), ("bin", "-", W, C(1))))) if tb else None
@@ -284,7 +296,7 @@ def check(prog, rep, tier):
             rep.bad("C06.default-hash", f"{ctx}.{fn}", f"default {sorted(vals)}", f"the default hash strategy is {sorted(vals)}, documented {want}", f.where())
 
 
-from ..selftest import Mutant, del_stmt, insert_stmt, replace_class_const, replace_expr, replace_stmt
+from ..selftest import Mutant, del_stmt, insert_stmt, replace_class_const, replace_expr, replace_stmt, seq
 
 _B, _CB, _E, _CM, _CK, _CC, _H = ("blooms/bloom.py", "blooms/countingbloom.py", "blooms/expandingbloom.py", "countminsketch/countminsketch.py",
                                   "cuckoo/cuckoo.py", "cuckoo/countingcuckoo.py", "hashes.py")
@@ -292,6 +304,10 @@ MUTANTS = [
     Mutant("fnv_1a_32: 31 * seed -> 32 * seed", _H, replace_expr(None, "fnv_1a_32", "31 * seed", "32 * seed"), rule="C06.fnv"),
     Mutant("fnv_1a: multiply before xor", _H, replace_stmt(None, "fnv_1a", "hval ^= t_str", "hval = hval * fnv_64_prime ^ t_str\nhval = hval // fnv_64_prime * fnv_64_prime"), rule="C06.fnv"),
     Mutant("mean-min: width - 1 -> width + 1", _CM, replace_expr("CountMinSketch", "__mean_min_query", "self.width - 1", "self.width + 1"), rule="C06.mean"),
+    Mutant("mean-min as a comprehension (same meaning)", _CM,
+           seq(replace_stmt("CountMinSketch", "__mean_min_query", "meanmin = []", "meanmin = [t_bin - (self.elements_added - t_bin) // (self.width - 1) for t_bin in results]"), del_stmt("CountMinSketch", "__mean_min_query", "for t_bin in results")), expect="silent"),
+    Mutant("mean-min comprehension dividing by width", _CM,
+           seq(replace_stmt("CountMinSketch", "__mean_min_query", "meanmin = []", "meanmin = [t_bin - (self.elements_added - t_bin) // self.width for t_bin in results]"), del_stmt("CountMinSketch", "__mean_min_query", "for t_bin in results")), rule="C06.mean"),
     Mutant("mean-min: sort dropped", _CM, del_stmt("CountMinSketch", "__mean_min_query", "meanmin.sort()"), rule="C06.mean"),
     Mutant("mean-min: odd median off by one", _CM, replace_stmt("CountMinSketch", "__mean_min_query", "res = meanmin[self.depth // 2]", "res = meanmin[self.depth // 2 - 1]"), rule="C06.mean"),
     Mutant("mean-min: zero shortcut tests only the smallest", _CM, replace_expr("CountMinSketch", "__mean_min_query", "results[0] == 0 and results[-1] == 0", "results[0] == 0"), rule="C06.mean"),
